@@ -95,6 +95,14 @@ KINDS = ("plain", "uni", "def", "ctl")
 STATES = ("nodir", "absent", "older", "magic")
 PYC_STATES = ("pyc-older", "pyc-orphan", "pyc-magic")  # bytecode-enabled crash states, see Scene.reset
 BIG_LINES = 9000
+BIGCJK_LINES = 3000
+BIGCJK_LINE = "\u884c %d: \u65e5\u672c\u8a9e\u306e\u30c6\u30ad\u30b9\u30c8\u3001\u898b\u308b\u3082\u306e\u306f\u4f55\u3082\u306a\u3044\u3002\u3053\u308c\u306f\u57cb\u3081\u8349\u3067\u3059\n"
+# histories run once per check with templates that are large (module files of several write blocks)
+BIG_HISTORIES = [
+    {"part": "i", "pyc": False, "kind": k, "depth": 0, "dir_pre": False, "frac": None, "symlink": False,
+     "ops": [["new", w, 0, "same"], ["new", False, 0, "same"], ["src", "newer", 2, False], ["new", w, 1, "fork"], ["del"], ["new", False, 0, "same"]]}
+    for k in ("bigcjk", "big") for w in (False, True)
+]
 CHILD_TIMEOUT_S = 300
 
 FOREIGN = """# -*- coding:utf-8 -*-
@@ -131,6 +139,9 @@ def source_text(kind, ver):
         return "% for i in range(2):\nv" + str(ver) + ":${i}${x}\n% endfor\n"
     if kind == "big":
         return "v%d:${x}\n" % ver + "".join("line %d of filler text, nothing to see\n" % i for i in range(BIG_LINES))
+    if kind == "bigcjk":
+        # about 100k characters whose encoded module is more than twice as many bytes
+        return "v%d:${x}\n" % ver + "".join(BIGCJK_LINE % i for i in range(BIGCJK_LINES))
     raise ValueError(kind)
 
 
@@ -145,6 +156,8 @@ def expected_output(kind, ver):
         return "".join("v%d:%d%s\n" % (ver, i, XVAL) for i in range(2))
     if kind == "big":
         return "v%d:%s\n" % (ver, XVAL) + "".join("line %d of filler text, nothing to see\n" % i for i in range(BIG_LINES))
+    if kind == "bigcjk":
+        return "v%d:%s\n" % (ver, XVAL) + "".join(BIGCJK_LINE % i for i in range(BIGCJK_LINES))
     raise ValueError(kind)
 
 
@@ -497,6 +510,7 @@ def history_strategy(pyc=False):
         "dir_pre": st.booleans(),
         "ops": st.lists(op.map(list), min_size=1, max_size=12),
         "frac": st.just(None) if pyc else st.sampled_from([None, None, [0.25, 0.75], [0.5, 0.5], [0.75, 0.25]]),
+        "symlink": st.sampled_from([False, False, False, True]),
     })
 
 
@@ -527,6 +541,14 @@ def check_history(case, ev=None):
         moddir = os.path.join(root, "mods")
         mpath = module_path(moddir, uri)
         ver, src_mtime = 0, T0
+        if case.get("symlink"):
+            # the template path is a symbolic link (a release link, a ConfigMap volume): the link itself is old and never
+            # touched, every modification goes to the file it points to - whose age is the one that counts
+            real = os.path.join(root, "src", "releases", "current.html")
+            write_file(real, b"", T0 - 1000)
+            os.symlink(real, src)
+            os.utime(src, (T0 - 5000, T0 - 5000), follow_symlinks=False)
+            labels.append("i:source-is-symlink")
         write_file(src, source_text(kind, ver).encode("utf-8"), src_mtime + fs)
         if case["dir_pre"]:
             os.makedirs(os.path.dirname(mpath))
@@ -706,6 +728,19 @@ def shard_histories(task):
 
     fails, known = core.hyp_search(history_strategy(pyc), check, ev, seed, n, classify=classify, known=core.load_known(PID))
     return ev, fails + list(known.values())
+
+
+def shard_big_histories(task):
+    warm()
+    ev = core.Evidence()
+    fails = []
+    for case in task:
+        try:
+            nt, labels = check_history(case)
+            ev.case(key=case, nontrivial=True, labels=sorted(set(labels)) + ["part:i", "i:big-template:" + case["kind"]])
+        except Failure as f:
+            fails.append(f)
+    return ev, fails
 
 
 # =================================================================================================================
@@ -1149,6 +1184,7 @@ def run(ctx):
     if part in (None, "ii", "ii-pyc"):
         ctx.pmap(shard_faults, fault_tasks(ctx.quick, ("pyc",) if part == "ii-pyc" else ("plain", "pyc")))
     if part in (None, "i"):
+        ctx.pmap(shard_big_histories, [[c] for c in BIG_HISTORIES])
         n = ctx.pick(150, 3000)
         ctx.pmap(shard_histories, [(ctx.shard_seed(i, "i"), n, i < 2, False) for i in range(16)])
     if part in (None, "pyc", "i-pyc"):
